@@ -17,7 +17,7 @@ import traceback
 from typing import Any, Callable, Dict, List, Optional
 
 VERIF = os.path.dirname(os.path.dirname(os.path.abspath(__file__)))
-LEAN_DIR = os.path.join(VERIF, "lean")
+LEAN_DIR = os.environ.get("VERIF_LEAN_DIR") or os.path.join(VERIF, "lean")
 REPO = os.environ.get("RL4CO_REPO", "/repo")
 EVIDENCE_DIR = os.path.join(VERIF, "evidence")
 REPLAY_DIR = os.path.join(VERIF, "replays")
@@ -120,9 +120,12 @@ class Ctx:
         the property's own definition).  `key` is a stable signature of the failure class used to
         match known findings."""
         rec = {"unit": self.unit, "key": key, "what": what, "witness": witness}
-        if len(self.violations) < 20:
+        # keep a few witnesses per failure class (key) so that a frequent class cannot hide a rarer one
+        nkey = sum(1 for v in self.violations if v["key"] == key)
+        if nkey < 3 and len(self.violations) < 90:
             self.violations.append(rec)
         self.count("violations")
+        self.count("violations." + key)
 
     # ---- Lean driver ------------------------------------------------------------------------
     @property
